@@ -153,7 +153,8 @@ def run_phased(plans: list, root: Path, workers: int, budget_s: float) -> list:
     out: dict = {}
     for ph in phases:
         idx = [i for i, p in enumerate(plans) if p.get("phase", 0) == ph]
-        res = run_lives([plans[i] for i in idx], root / ("ph%d" % ph), workers, budget_s)
+        batch = [dict(plans[i], shared=str(root / "shared")) for i in idx]
+        res = run_lives(batch, root / ("ph%d" % ph), workers, budget_s)
         for i, r in zip(idx, res):
             out[i] = r
     return [out[i] for i in range(len(plans))]
